@@ -145,7 +145,7 @@ void genFiles(Prng& r, Plan& p, int tier)
 		int64_t len = r.below(5) == 0 ? biased(r, 0, big, {0, 1, 65535, 65536, 65537, 131072}) : biased(r, 0, 3000, {0, 1, 2, 3, 254, 255, 256, 509, 510, 511, 1020});
 		if (p.get("faulty") && r.below(3) == 0)
 			p.ops.push_back(op("fault", {(int64_t)r.below(4), (int64_t)r.below(3000)}));
-		switch (r.below(12))
+		switch (r.below(14))
 		{
 		case 0: case 1: p.ops.push_back(op("put", {path, len, (int64_t)(r.next() >> 20)})); break;
 		case 2: p.ops.push_back(op("wr", {path, (int64_t)r.below(2), (int64_t)(1 + r.below(4)), len, (int64_t)(r.next() >> 20), (int64_t)r.below(2)})); break;
@@ -155,6 +155,7 @@ void genFiles(Prng& r, Plan& p, int tier)
 		case 7: p.ops.push_back(op("tprintf", {path, (int64_t)(1 + r.below(5)), (int64_t)(r.next() >> 20)})); break;
 		case 8: p.ops.push_back(op("copy", {path, (int64_t)r.below(NPATH), (int64_t)r.below(2)})); break;
 		case 9: p.ops.push_back(op("move", {path, (int64_t)r.below(NPATH), (int64_t)r.below(2)})); break;
+		case 12: case 13: p.ops.push_back(op("same", {path, (int64_t)r.below(3), len, (int64_t)(r.next() >> 20)})); break;
 		case 10: p.ops.push_back(op("bom", {path, (int64_t)r.below(3), (int64_t)biased(r, 0, 400, {0, 1, 2}), (int64_t)(r.next() >> 20), (int64_t)r.below(2)})); break;
 		default: p.ops.push_back(op("rm", {path})); break;
 		}
@@ -420,6 +421,54 @@ void runFiles(const Plan& p)
 			}
 			m.bomText.erase(path);
 			settle(path, a + b + c, old, hadOld, false, false);
+		}
+		else if (o.k == "same")
+		{
+			// the same File object is asked before and after it rewrites the file ("all sequences of write/append/reopen
+			// operations on one path"); "written" = after close()
+			int how = (int)(std::abs(o.arg(1)) % 3);
+			std::string data = bytesOf((uint64_t)o.arg(3), (size_t)std::max<int64_t>(0, std::min<int64_t>(300000, o.arg(2))));
+			std::string expect = how == 1 ? old + data : data;
+			asl::File f(path.c_str());
+			asl::Long s0 = f.size();
+			std::string c0 = hadOld ? STR(f.content()) : std::string();
+			f.close();
+			if (hadOld && (s0 != (asl::Long)old.size() || c0 != old))
+				sim::fail("readback_mismatch", "same_object;before", "a long-lived File object returned size %lld / %zu content bytes for a file of %zu bytes", (long long)s0, c0.size(), old.size());
+			bool ok;
+			if (how == 0)
+				ok = f.put(BA(data));
+			else
+			{
+				ok = f.open(how == 1 ? asl::File::APPEND : asl::File::WRITE);
+				if (ok)
+					ok = f.write(data.data(), (int)data.size()) == (int)data.size();
+			}
+			f.close();
+			m.files[path] = expect;
+			m.bomText.erase(path);
+			if (!ok)
+				sim::fail("write_failed", "same_object", "write through a long-lived File object failed without any fault");
+			asl::Long s1 = f.size();
+			std::string c1 = STR(f.content());
+			f.close();
+			if (s1 != (asl::Long)expect.size())
+				sim::fail("readback_mismatch", "same_object;size", "the File object that wrote %zu bytes (file had %zu before) reports size() %lld after close()", expect.size(), old.size(), (long long)s1);
+			else if (c1 != expect)
+				sim::fail("readback_mismatch", "same_object;content", "the File object that wrote the file returns %zu content bytes after close(), %zu were written", c1.size(), expect.size());
+			if (nulFree(expect) && expect.size() < 100000)
+			{
+				asl::TextFile t(path.c_str());
+				asl::String t0 = t.text();
+				t.close();
+				t.append("tail");
+				t.close();
+				asl::String t1 = t.text();
+				m.files[path] = expect + "tail";
+				if (std::string(*t1, (size_t)t1.length()) != expect + "tail" && !(expect.size() >= 2 && ((unsigned char)expect[0] >= 0xef)))
+					sim::fail("readback_mismatch", "same_object;text_after_append", "a TextFile object that appended 4 bytes returns %d bytes of text afterwards, the file has %zu", t1.length(), expect.size() + 4);
+			}
+			nontrivial = true;
 		}
 		else if (o.k == "tput")
 		{
